@@ -3,7 +3,7 @@
    certificate check of the harness (Model/CritPath.cert_ok: reported lines are linked by edges of the model graph,
    every CP cell is the edge latency / the last line's latency, and the cells add up to cp_opt). *)
 From Coq Require Import QArith List Bool.
-From OV Require Import Model.Num Model.Pressure Model.Deps Model.CritPath Proofs.CritPathQ.
+From OV Require Import Model.Num Model.Pressure Model.Deps Model.CritPath Proofs.CritPathQ Proofs.CritCert.
 Import ListNotations.
 Open Scope Q_scope.
 
@@ -44,3 +44,159 @@ Proof.
   - intros [H|[]]; discriminate.
   - intros s w [H|[]]. inversion H. left. reflexivity.
 Qed.
+
+(* ================================================================ the certificate (Proofs/CritCert.v) *)
+(* The check never re-implements networkx: per kernel it evaluates  cp_certificate = cert_ok && (sum of cells = cp_opt)  on
+   the lines and CP cells the implementation reports.  The theorems below say what a passed certificate MEANS, for every
+   graph g, line list k, latency function lat and reported cells (exact rationals):
+     cells_spec   : every cell is what the chain semantics assigns to its position (edge latency; first line of a chain
+                    of >= 2 lines: load stage + edge latency; last line: the instruction's latency),
+     chain        : the reported lines are a dependency chain of g,
+     clen == ...  : the cells add up to the chain's length, which is cp_opt g k,
+     longest_chain: no chain of the kernel is longer. *)
+Theorem C04_certificate_sound : forall g k lat cells,
+  nonneg_edges g -> forward_ok g [] k ->
+  (forall n l, lat n = Some l -> In (n, l) k) ->
+  cert_ok QNum g lat true cells = true ->
+  cert_value QNum cells == cp_opt QNum g k ->
+  cells_spec g lat true cells /\
+  exists e l, chain g (map fst cells) e /\ lat (last_of (map fst cells)) = Some l /\
+    clen g (map fst cells) e l == cells_sum cells /\
+    clen g (map fst cells) e l == cp_opt QNum g k /\
+    longest_chain g k (map fst cells) e l.
+Proof. exact cert_sound. Qed.
+Print Assumptions C04_certificate_sound.
+
+(* the same for the latency function the shards use (lookup k, see C04_shard_latency_function_is_lookup), stated on the
+   boolean the shards evaluate *)
+Theorem C04_certificate_sound_kernel_latencies : forall g k cells,
+  nonneg_edges g -> forward_ok g [] k ->
+  cp_certificate QNum g k (lookup k) cells = true ->
+  cells_spec g (lookup k) true cells /\
+  exists e l, chain g (map fst cells) e /\ In (last_of (map fst cells), l) k /\
+    clen g (map fst cells) e l == cells_sum cells /\
+    clen g (map fst cells) e l == cp_opt QNum g k /\
+    longest_chain g k (map fst cells) e l.
+Proof. exact cp_certificate_sound_lookup. Qed.
+Print Assumptions C04_certificate_sound_kernel_latencies.
+
+(* the hypotheses are decidable: with the boolean input check (non-negative weights, distinct line numbers, every edge
+   points from an earlier line of k) nothing but two evaluations is assumed *)
+Theorem C04_certificate_sound_checked : forall g k cells,
+  cert_inputs_okb QNum g k = true ->
+  cp_certificate QNum g k (lookup k) cells = true ->
+  cells_spec g (lookup k) true cells /\
+  exists e l, chain g (map fst cells) e /\ In (last_of (map fst cells), l) k /\
+    clen g (map fst cells) e l == cells_sum cells /\
+    clen g (map fst cells) e l == cp_opt QNum g k /\
+    longest_chain g k (map fst cells) e l.
+Proof. exact cp_certificate_sound_checked. Qed.
+Print Assumptions C04_certificate_sound_checked.
+
+(* contrapositive: whenever some chain of the kernel is strictly longer than the reported cells add up to, the
+   certificate is rejected -- whatever lines and cells are reported *)
+Theorem C04_certificate_rejects_non_maximal : forall g k lat cells c e n l,
+  nonneg_edges g -> forward_ok g [] k ->
+  (forall n l, lat n = Some l -> In (n, l) k) ->
+  chain g c e -> last_of c = n -> In (n, l) k -> cells_sum cells < clen g c e l ->
+  cp_certificate QNum g k lat cells = false.
+Proof. exact cp_certificate_rejects_non_maximal. Qed.
+Print Assumptions C04_certificate_rejects_non_maximal.
+
+(* converse (no false alarms, whatever tie-breaking networkx applies): EVERY longest chain, reported with the cells of
+   the chain semantics, passes the certificate.  Needs one weight per (u, v) -- true of the model graph, see
+   C04_model_graph_one_weight_per_pair -- and a non-negative latency of the chain's last instruction. *)
+Theorem C04_longest_chain_has_certificate : forall g k c e n l,
+  nonneg_edges g -> forward_ok g [] k -> edges_functional g ->
+  chain g c e -> last_of c = n -> In (n, l) k -> 0 <= l ->
+  longest_chain g k c e l ->
+  exists cells, map fst cells = c /\ cells_spec g (lookup k) true cells /\ cells_sum cells == clen g c e l /\
+                cp_certificate QNum g k (lookup k) cells = true.
+Proof. exact longest_has_cert_lookup. Qed.
+Print Assumptions C04_longest_chain_has_certificate.
+
+(* ... and any chain at all passes cert_ok with cells adding up to its length: only the comparison with cp_opt can reject
+   an honestly reported chain *)
+Theorem C04_every_chain_passes_cert_ok : forall g lat c e l,
+  edges_functional g -> chain g c e -> lat (last_of c) = Some l ->
+  exists cells, map fst cells = c /\ cert_ok QNum g lat true cells = true /\ cert_value QNum cells == clen g c e l.
+Proof. exact chain_cells_pass_cert_ok. Qed.
+Print Assumptions C04_every_chain_passes_cert_ok.
+
+(* glue to the shards (harness/deps.py `check`): their latency function is lookup of their k; their graph is create_dg *)
+Theorem C04_shard_latency_function_is_lookup : forall (A T : Type) (no : A -> nat) (f : A -> T) (ls : list A) n,
+  option_map f (find (fun l => Nat.eqb (no l) n) ls) = lookup (map (fun l => (no l, f l)) ls) n.
+Proof. exact @find_is_lookup. Qed.
+Print Assumptions C04_shard_latency_function_is_lookup.
+
+Theorem C04_model_graph_one_weight_per_pair : forall dep fwd pidx fd (k : list (line (T:=Q))),
+  edges_functional (create_dg QNum dep fwd pidx fd k).
+Proof. exact create_dg_functional. Qed.
+Print Assumptions C04_model_graph_one_weight_per_pair.
+
+(* the load-stage rule used by cells_spec / clen: the weight of the line's load edge, 0 without one *)
+Theorem C04_load_stage_rule : forall (g : list qedge) n,
+  loadw QNum g n = 0 \/ In ((n, true), n, loadw QNum g n) g.
+Proof. exact loadw_spec. Qed.
+Print Assumptions C04_load_stage_rule.
+
+(* ---------------------------------------------------------------- non-vacuity: 4 lines, line 1 has a load stage (4 cy) *)
+Definition g4 : list qedge :=
+  [((1%nat, true), 1%nat, 4); ((1%nat, false), 2%nat, 2); ((2%nat, false), 3%nat, 3);
+   ((1%nat, false), 3%nat, 2); ((3%nat, false), 4%nat, 1)].
+Definition k4 : list (nat * Q) := [(1%nat, 5); (2%nat, 3); (3%nat, 1); (4%nat, 2)].
+(* longest chain 1 -> 2 -> 3 -> 4: (4 + 2) + 3 + 1 + latency 2 = 12 *)
+Definition cells4 : list (nat * Q) := [(1%nat, 6); (2%nat, 3); (3%nat, 1); (4%nat, 2)].
+
+Example C04_g4_hypotheses : nonneg_edges g4 /\ forward_ok g4 [] k4 /\ edges_functional g4.
+Proof.
+  split; [|split].
+  - intros s isld t w H. unfold g4 in H. cbn [In] in H.
+    repeat (destruct H as [H|H]; [inversion H; subst; discriminate|]). contradiction.
+  - assert (E : forall s w (P : Prop), has_edge g4 s 1%nat w -> P).
+    { intros s w P H. unfold has_edge, g4 in H. cbn [In] in H.
+      repeat (destruct H as [H|H]; [discriminate H|]). contradiction. }
+    cbn [forward_ok k4]. repeat split; try tauto.
+    + intros s w H. exact (E s w _ H).
+    + intros [H|[]]; discriminate.
+    + intros s w H. unfold has_edge, g4 in H. cbn [In] in H.
+      repeat (destruct H as [H|H]; [try discriminate H; inversion H; subst; cbn; tauto|]). contradiction.
+    + intros [H|[H|[]]]; discriminate.
+    + intros s w H. unfold has_edge, g4 in H. cbn [In] in H.
+      repeat (destruct H as [H|H]; [try discriminate H; inversion H; subst; cbn; tauto|]). contradiction.
+    + intros [H|[H|[H|[]]]]; discriminate.
+    + intros s w H. unfold has_edge, g4 in H. cbn [In] in H.
+      repeat (destruct H as [H|H]; [try discriminate H; inversion H; subst; cbn; tauto|]). contradiction.
+  - intros u v w w' H1 H2. unfold has_edge, g4 in *. cbn [In] in *.
+    repeat (destruct H1 as [H1|H1]; [inversion H1; subst; clear H1|]); try contradiction;
+    repeat (destruct H2 as [H2|H2]; [try (inversion H2; subst; reflexivity); try discriminate H2|]); try contradiction.
+Qed.
+
+(* the certificate passes on the longest chain (first cell = load stage 4 + edge 2) ... *)
+Example C04_g4_certificate_passes :
+  cp_certificate QNum g4 k4 (lookup k4) cells4 = true /\ cp_opt QNum g4 k4 == 12.
+Proof. split; vm_compute; reflexivity. Qed.
+Example C04_g4_inputs_ok : cert_inputs_okb QNum g4 k4 = true.
+Proof. vm_compute. reflexivity. Qed.
+
+(* ... so C04_certificate_sound_kernel_latencies applies: 1 -> 2 -> 3 -> 4 is a longest chain of g4 *)
+Example C04_g4_reported_path_is_longest :
+  exists e l, chain g4 [1; 2; 3; 4]%nat e /\ clen g4 [1; 2; 3; 4]%nat e l == 12 /\ longest_chain g4 k4 [1; 2; 3; 4]%nat e l.
+Proof.
+  destruct C04_g4_hypotheses as (Hw & FO & _).
+  destruct (C04_certificate_sound_kernel_latencies g4 k4 cells4 Hw FO (proj1 C04_g4_certificate_passes))
+    as (_ & e & l & Hc & _ & _ & Ho & Lg).
+  exists e, l. split; [exact Hc|]. split; [|exact Lg]. rewrite Ho. exact (proj2 C04_g4_certificate_passes).
+Qed.
+
+(* ... and is rejected on: the non-maximal chain 1 -> 3 -> 4 with honest cells (cert_ok passes, the sum 9 is not cp_opt);
+   the longest chain with the load stage left out of the first cell (cert_ok alone would accept it: the comparison with
+   cp_opt is what pins the first cell); lines that are not linked; a cell that is not the edge latency *)
+Example C04_g4_certificate_rejects :
+  (cert_ok QNum g4 (lookup k4) true [(1%nat, 6); (3%nat, 1); (4%nat, 2)] = true /\
+   cp_certificate QNum g4 k4 (lookup k4) [(1%nat, 6); (3%nat, 1); (4%nat, 2)] = false) /\
+  (cert_ok QNum g4 (lookup k4) true [(1%nat, 2); (2%nat, 3); (3%nat, 1); (4%nat, 2)] = true /\
+   cp_certificate QNum g4 k4 (lookup k4) [(1%nat, 2); (2%nat, 3); (3%nat, 1); (4%nat, 2)] = false) /\
+  cert_ok QNum g4 (lookup k4) true [(2%nat, 3); (4%nat, 2)] = false /\
+  cert_ok QNum g4 (lookup k4) true [(1%nat, 6); (2%nat, 4); (3%nat, 1); (4%nat, 2)] = false.
+Proof. vm_compute. repeat split; reflexivity. Qed.
